@@ -107,10 +107,88 @@ func priceGrid(tier string) (*PureEvidence, []Found) {
 			}
 		}
 	}
+	priceGridFX(ev, found, distinct)
 	ev.Distinct = int64(len(distinct))
 	var out []Found
 	for _, f := range found {
 		out = append(out, *f)
 	}
 	return ev, out
+}
+
+// priceGridFX: the exchanged price on a host chain with a token module: prices published in a main unit or a foreign
+// token x discounts x exchange rates with up to 18 decimals (the rate is what the exchange-rate service answers at
+// the block height). Reference = max(1, floor(amount in smallest units x dT x dV x rate)) in exact rationals.
+func priceGridFX(ev *PureEvidence, found map[string]*Found, distinct map[string]bool) {
+	rates := []string{"0.03", "1", "2.5", "1.333333333333333333", "0.666666666666666666", "0.000000000000000001", "1000000", "0.333333333333333334", "0.015"}
+	rig := NewRig(RigConfig{FX: &FXSpec{Rates: map[string][]string{"cent-stake": rates}}})
+	ps := defaultParams()
+	ts := func(sec int) string { return T0.Add(timeSec(sec)).Format("2006-01-02T15:04:05Z") }
+	prices := []string{"1usd", "1.5usd", "0.03usd", "150cent", "3cent", "0cent", "0.002kilo", "0.0015kilo", "2stake"}
+	timeLayouts := []string{"", fmt.Sprintf(`[{"start_time":"%s","end_time":"%s","discount":"0.5"}]`, ts(10), ts(20)),
+		fmt.Sprintf(`[{"start_time":"%s","end_time":"%s","discount":"0.333333333333333334"}]`, ts(10), ts(20))}
+	volLayouts := []string{"", `[{"volume":1,"discount":"0.9"}]`, `[{"volume":1,"discount":"0.999999999999999998"}]`}
+	for _, price := range prices {
+		for ti, tl := range timeLayouts {
+			for vi, vl := range volLayouts {
+				parts := []string{fmt.Sprintf(`"price":"%s"`, price)}
+				if tl != "" {
+					parts = append(parts, `"promotions_by_time":`+tl)
+				}
+				if vl != "" {
+					parts = append(parts, `"promotions_by_volume":`+vl)
+				}
+				text := "{" + strings.Join(parts, ",") + "}"
+				s := rig.Genesis(ps, []Funding{{O1, -30}, {C1, 10}}, allAccounts)
+				w := rig.Restore(s)
+				if res := w.DeliverMsg(st.NewMsgDefineService("a", "", nil, AU, "", schemasOK), nil, 0); !res.OK() {
+					panic("price grid setup: " + res.ErrString())
+				}
+				if res := w.DeliverMsg(st.NewMsgBindService("a", P1, bigCoins("3000000000000000000"), text, 1, "{}", O1), nil, 0); !res.OK() {
+					ev.Counters["fx/pricing-refused-by-module"]++
+					continue
+				}
+				binding, _ := rig.sk.GetServiceBinding(w.ctx, "a", P1)
+				rp := parseRefPricing(text)
+				for h := range rates {
+					for _, bt := range []int{5, 15} {
+						for _, vol := range []uint64{0, 1} {
+							t := T0.Add(time.Duration(bt) * time.Second)
+							ctx := w.ctx.WithBlockTime(t).WithBlockHeight(int64(h))
+							rig.sk.SetRequestVolume(ctx, C1, "a", P1, vol)
+							sc := &Scenario{Rig: rig.cfg}
+							want, ok := rp.PriceAt(t, vol, rateFn(sc, denom, int64(h)))
+							gotX, _, err := rig.sk.GetExchangedPrice(ctx, C1, binding)
+							ev.Evaluations++
+							ev.Counters["fx/cases"]++
+							if !ok {
+								panic("no rate in the FX grid")
+							}
+							if rp.Denom != denom {
+								ev.Counters["fx/exchanged"]++
+								distinct[fmt.Sprintf("fx|%s|%d|%d|%d", text, bt, vol, h)] = true
+							}
+							g := ""
+							switch {
+							case err != nil:
+								g = "error " + err.Error()
+							case gotX.AmountOf(denom).BigInt().Cmp(want) != 0:
+								g = gotX.String()
+							}
+							if g != "" {
+								sig := fmt.Sprintf("C07|charged-price-equals-reference-price|pure|GetExchangedPrice/fx/price=%s/tl=%d/vl=%d/rate=%s", price, ti, vi, rates[h])
+								if f, ok := found[sig]; ok {
+									f.Count++
+								} else {
+									found[sig] = &Found{Violation: Violation{Prop: "C07", Clause: "charged-price-equals-reference-price", Sig: sig,
+										Detail: fmt.Sprintf("GetExchangedPrice for pricing %s at T0+%ds with volume %d at rate %s is %s, reference %s", text, bt, vol, rates[h], g, want)},
+										Trace: []string{text, fmt.Sprintf("T0+%ds", bt), fmt.Sprintf("volume=%d", vol), "rate=" + rates[h]}, Count: 1}
+								}
+							}
+						}
+					}
+				}
+			}
+		}
+	}
 }
